@@ -2,17 +2,18 @@
 from vlib import engine
 from vlib.engine import CheckDef, ModelRun, prog_string
 
-KINDS = {'trip': 0, 'poll': 1, 'movetrip': 2, 'publish': 3, 'consume': 4, 'badindex': 5}
+KINDS = {'trip': 0, 'poll': 1, 'movetrip': 2, 'publish': 3, 'consume': 4, 'badindex': 5, 'massign': 6}
 
 
 def code(name):
     return KINDS[name[:-1]] * 10 + int(name[-1])
 
 
+# 62 = a trigger of line 2 is move-assigned onto a trigger attached to line 1 (which is dropped untripped)
 # lines 1, 3, 5 are publication lines: exactly one trigger (the publisher's) exists for them in a program, so that
 # "the triggering thread" is unambiguous; lines 2 and 4 are tripped / moved / polled freely and carry no data
-PUB1 = '31,11,12,2,22,50'        # the single publisher of line 1
-ANY = '11,41,12,2,22,50'         # polls/consumes line 1; trips, move-trips and polls line 2
+PUB1 = '31,11,12,2,22,50,62'        # the single publisher of line 1
+ANY = '11,41,12,2,22,50,62'         # polls/consumes line 1; trips, move-trips and polls line 2
 PUB3 = '33,13,14,4,24'           # first operation of the publisher of line 3 (indexed)
 PUB5 = '35,13,14,4,24'           # second operation: publisher of line 5 (declared); each line is published at most once
 ANY3 = '13,43,15,45,14,4,24'
